@@ -204,7 +204,7 @@ def replay_native(path, call, timeout=300):
     ) % (ROOT, path, call)
     env = dict(os.environ)
     env.pop("VERIF_PATHLOG", None)
-    env["PYTHONPATH"] = ROOT
+    env["PYTHONPATH"] = ROOT + os.pathsep + os.environ.get("PYTHONPATH", "")
     try:
         p = subprocess.run([VENV_PY, "-c", code], capture_output=True, text=True, timeout=timeout, env=env)
     except subprocess.TimeoutExpired:
@@ -281,7 +281,7 @@ def run(pid, tier="quick", jobs=None, keep=False, only=None):
 
     # 0. the harness must import (concrete warm-up runs inside)
     env = dict(os.environ)
-    env["PYTHONPATH"] = ROOT
+    env["PYTHONPATH"] = ROOT + os.pathsep + os.environ.get("PYTHONPATH", "")
     env.pop("VERIF_PATHLOG", None)
     p = subprocess.run([VENV_PY, path], capture_output=True, text=True, env=env, timeout=600)
     if p.returncode != 0:
